@@ -24,6 +24,7 @@ EXPLANATION = (
     " (D6 as built) the admissibility mask is normalised to sample OP bound by linear algebra; arithmetic on the caller's spike-sample array before a signed cast is refused (unsigned spike times wrap); per-unit candidates may be selected by mask or by one stable sort + searchsorted grouping."
     ' (D4 as built) a block store rows[X[0]:X[-1]+1] needs a guard establishing that X is an increasing consecutive run (span == count alone is not enough); pairwise chunk bounds zip(B[:-1], B[1:]) are accepted.'
     ' (D3 cover-end) on every path to the fan-out the end of the last chunk is ns; a leading part of the arange grid is still the grid.'
+    " (D7) a unit's template is the NaN-aware median (np.nanmedian) over rows first_index .. last_index inclusive along axis 0: the NaN padding of a waveform depends on that spike's own peak channel."
 )
 ASSUMPTIONS = [
     "np.arange(a, b, k)[i] == a + i*k; rng.choice(replace=False) returns distinct elements; stable argsort of group codes is a permutation",
